@@ -1,6 +1,7 @@
 -- GENERATED from /repo by tools (never hand-edited); regenerated on every check run.
-/-! formulas and tables of the directional specifiers, `on`, `beyond`, `apparently facing`
-    (veneer.py) and of the sides / corners of an `Object` (object_types.py) -/
+/-! formulas and tables of the directional specifiers, `on`, `beyond`, the `facing toward` family
+    (veneer.py), of the vector / angle primitives (vectors.py, geometry.py) and of the sides / corners of an
+    `Object` (object_types.py) -/
 set_option linter.unusedVariables false
 namespace Scenic.Gen.Frames
 section
@@ -56,13 +57,44 @@ def contactOffsetGiven (ct : α) : α := 0
 def onContactOffset (ct ox oy oz : α) : α × α × α := ((0 - ox), (0 - oy), ((ct / 2) - oz))
 /-- `Beyond`: a scalar offset `d` is read as this vector -/
 def beyondScalar (d : α) : α × α × α := (0, d, 0)
+/-- `Vector.rotatedBy(angle)` with `c = cos angle`, `s = sin angle` -/
+def rotatedByFormula (c s x y z : α) : α × α × α := (((c * x) - (s * y)), ((s * x) + (c * y)), z)
+/-- `Vector.sphericalCoordinates()[1]`: the arguments `(A, B)` of its `atan2(A, B)` (`h` stands for `hypot` of the first two coordinates) -/
+def sphThetaArgs (x y z h : α) : α × α := (y, x)
+/-- … and `(cos, sin)` of the result from `(c0, s0) = (cos, sin)` of that `atan2` -/
+def sphThetaPost (c0 s0 : α) : α × α := (s0, (-c0))
+/-- `Vector.sphericalCoordinates()[2]`: the arguments `(A, B)` of its `atan2(A, B)` (`h` stands for `hypot` of the first two coordinates) -/
+def sphPhiArgs (x y z h : α) : α × α := (z, h)
+/-- … and `(cos, sin)` of the result from `(c0, s0) = (cos, sin)` of that `atan2` -/
+def sphPhiPost (c0 s0 : α) : α × α := (c0, s0)
+/-- `Vector.azimuthTo` on `d = other - self`: the arguments `(A, B)` of its `atan2(A, B)` (`h` stands for `hypot` of the first two coordinates) -/
+def azimuthToArgs (d0 d1 d2 h : α) : α × α := (d1, d0)
+/-- … and `(cos, sin)` of the result from `(c0, s0) = (cos, sin)` of that `atan2` -/
+def azimuthToPost (c0 s0 : α) : α × α := (s0, (-c0))
+/-- `Vector.altitudeTo` on `d = other - self`: the arguments `(A, B)` of its `atan2(A, B)` (`h` stands for `hypot` of the first two coordinates) -/
+def altitudeToArgs (d0 d1 d2 h : α) : α × α := (d2, h)
+/-- … and `(cos, sin)` of the result from `(c0, s0) = (cos, sin)` of that `atan2` -/
+def altitudeToPost (c0 s0 : α) : α × α := (c0, s0)
+/-- `geometry.apparentHeadingAtPoint(point, heading, base)`: the arguments `(A, B)` of its `atan2(A, B)` (`h` stands for `hypot` of the first two coordinates) -/
+def apparentHeadingArgs (p0 p1 b0 b1 : α) : α × α := ((p1 - b1), (p0 - b0))
+/-- … and `(cos, sin)` of the result from `(c0, s0) = (cos, sin)` of that `atan2` -/
+def apparentHeadingPost (cheading sheading c0 s0 : α) : α × α := ((((-sheading) * c0) + (cheading * s0)), ((cheading * c0) - ((-sheading) * s0)))
 end
 
-/-- whether `ApparentlyFacing.helper` computes the line of sight in the parent frame -/
-def apparentlyFacingUsesParent : Bool := true
-/-- whether `Beyond` tests `isA(fromPt, OrientedPoint)` before coercing `fromPt` to a vector
-    (only then can the orientation of an oriented `from` argument be inherited) -/
-def beyondInheritsFromOrientation : Bool := true
+/-- `VectorField.followFrom`: number of forward-Euler steps -/
+def followNumSteps (minSteps : Nat) (dist stepSize : Rat) : Nat := (Nat.max minSteps (Rat.ceil (dist / stepSize)).toNat)
+/-- axis sequence given to SciPy by `Orientation._fromEuler`, encoded as X = 0, Y = 1, Z = 2 (intrinsic, upper case), x = 3, y = 4, z = 5 (extrinsic, lower case) -/
+def fromEulerAxes : List Nat := [2, 0, 1]   -- "ZXY"
+/-- axis sequence given to SciPy by `Orientation.eulerAngles`, encoded as X = 0, Y = 1, Z = 2 (intrinsic, upper case), x = 3, y = 4, z = 5 (extrinsic, lower case) -/
+def eulerAnglesAxes : List Nat := [2, 0, 1]   -- "ZXY"
+/-- the `facing toward` family: (direction is `position - target`, pitch is specified too, a heading is added) -/
+def facingTable : List (String × (Bool × Bool × Bool)) := [
+  ("FacingToward", (false, false, false)),
+  ("FacingDirectlyToward", (false, true, false)),
+  ("FacingAwayFrom", (true, false, false)),
+  ("FacingDirectlyAwayFrom", (true, true, false)),
+  ("ApparentlyFacing", (true, false, true))
+]
 /-- `Object.corners`: signs of `(hw, hl, hh)`, in source order -/
 def cornerTable : List (Int × Int × Int) := [(1, 1, 1), ((-1), 1, 1), ((-1), (-1), 1), (1, (-1), 1), (1, 1, (-1)), ((-1), 1, (-1)), ((-1), (-1), (-1)), (1, (-1), (-1))]
 /-- `Object.left … bottomBackRight`: signs of `(hw, hl, hh)` passed to `relativize` -/
